@@ -111,7 +111,7 @@ def run_shard(acc, shard, nshards, seed, tier):
 
     @st.composite
     def cases(draw):
-        spec = draw(sessions.session(minutes=(60, 150) if tier == 'quick' else (60, 400), align_len=True, program=dict(busy=True)))
+        spec = draw(sessions.session(minutes=(60, 150) if tier == 'quick' else (60, 400), align_len=True, program=dict(busy=True), data_only_symbol=True))
         n = spec['n']
         tf = max(sessions.TF_MIN[r['timeframe']] for r in spec['routes'])
         if spec['fast']:
@@ -121,7 +121,7 @@ def run_shard(acc, shard, nshards, seed, tier):
             cut = draw(st.integers(2, n - 2))
         tails = {}
         for s in spec['candles']:
-            tick = spec['scripts'][s]['tick']
+            tick = spec['ticks'][s]
             style = draw(st.sampled_from(['continue', 'jump']))
             last_close = spec['candles'][s][cut - 1][2]
             start = round(last_close / tick) + (0 if style == 'continue' else draw(st.sampled_from([-40, -7, 9, 60])))
@@ -134,6 +134,7 @@ def run_shard(acc, shard, nshards, seed, tier):
         spec = case['spec']
         nt = info['fills'] >= 1 and info['differs_after']
         cl = ['sim:' + ('fast' if spec['fast'] else 'step'), 'type:' + spec['cfg']['type'], f"routes={len(spec['routes'])}", f"data={len(spec['data'])}",
+              'data-only-symbol' if len(spec['candles']) > len(spec['routes']) else 'traded-symbols-only',
               'warmup' if spec['warmup'] else 'no-warmup', 'tf:' + spec['routes'][0]['timeframe']]
         if info['err1']:
             cl.append('aborted:' + info['err1'])
